@@ -142,6 +142,85 @@ PROPS["C07"] = {
     "explanation": "parse_number: lenient_end / is_plain_int / dec_val specs; parse_number_fraction: significand == old*10^k + digits",
 }
 
+K_META = [
+    K("meta_dom_node_roundtrip", "Meta::pack_dom_node/unpack_dom_node round trip (kind, idx < 2^29, len) and get_type/in_shared/unpack_strlen, all values",
+      ["value::node::Meta::pack_dom_node", "value::node::Meta::unpack_dom_node", "value::node::Meta::get_type", "value::node::Meta::get_kind", "value::node::Meta::in_shared", "value::node::Meta::has_strlen", "value::node::Meta::unpack_strlen"]),
+    K("meta_dom_node_idx_width", "pack/unpack round trip for every sibling index a document under the 4 GiB guard can produce (idx <= 2^31) — fails: F5", ["value::node::Meta::pack_dom_node"]),
+    K("meta_static_types_total", "Meta::new(type constant): get_type total and exact, not in_shared, all 13 constants", ["value::node::Meta::new", "value::node::Meta::get_type"]),
+    K("meta_static_str_roundtrip", "pack_static_str length round trip, all len < u32::MAX", ["value::node::Meta::pack_static_str"]),
+    K("meta_root_tag_roundtrip", "ROOT_NODE tag in the alignment bits: kind/type/unpack_root for every 8-aligned address", ["value::node::Meta::unpack_root", "value::node::Meta::pack_shared"]),
+]
+K_OWNED = [
+    K("owned_new_type_total", "OwnedLazyValue::new on non-literal well-formed text: get_type() total and correct (every 2-byte prefix)", ["lazyvalue::owned::OwnedLazyValue::new", "lazyvalue::owned::LazyRaw::get_type", "lazyvalue::owned::OwnedLazyValue::get_type"]),
+    K("owned_from_lazyvalue_type_total", "From<LazyValue> for OwnedLazyValue on non-literal text, both escape statuses: get_type() total and correct", ["lazyvalue::owned::<OwnedLazyValue as From<LazyValue>>::from"]),
+] + [K(n, d, ["lazyvalue::owned::OwnedLazyValue::from_literal"]) for (n, d) in [
+    ("owned_new_true", "OwnedLazyValue::new(\"true\") is Boolean"), ("owned_new_false", "OwnedLazyValue::new(\"false\") is Boolean"), ("owned_new_null", "OwnedLazyValue::new(\"null\") is Null"),
+    ("owned_from_lv_true", "OwnedLazyValue::from(LazyValue \"true\") is Boolean"), ("owned_from_lv_false", "OwnedLazyValue::from(LazyValue \"false\") is Boolean"), ("owned_from_lv_null", "OwnedLazyValue::from(LazyValue \"null\") is Null"),
+]]
+K_CACHE = [
+    K("cache_parse_from_all_outcomes", "Inner::parse_from/clone/drop under every CAS outcome (success, lost race to a published value, spurious weak failure) and decoder outcome: returned reference valid and equal to the published decoding, cache monotone, loser released with its real layout, counts balanced",
+      ["lazyvalue::value::Inner::parse_from", "lazyvalue::value::<Inner as Clone>::clone", "lazyvalue::value::<Inner as Drop>::drop"], timeout=600),
+]
+K_READER = [
+    K("reader_read_contract", "impl Reader for Read meets the T1 contract (remain/peek/peek_n/next/next_n/eat/backward/set_index/at/slice_unchecked/index), all indices, slice length <= 8",
+      ["reader::<Read as Reader>::*"], kind="bounded(slice length <= 8)"),
+]
+K_STRBITS = [
+    K("string_bits_all", "get_string_bits == scalar in-string scan with both carries, all 64-byte blocks x 4 carry states", ["parser::get_string_bits"], timeout=600),
+]
+
+PROPS["C01"] = {
+    "level": "proof",
+    "verus": [{"unit": "recognisers", "rlimit": 200}, {"unit": "errors", "rlimit": 200}, {"unit": "number", "rlimit": 400}],
+    "kani": K_UNICODE + K_BLOCK[3:] + K_QUOTE[1:] + K_META[:1] + K_META[2:] + K_READER + K_OWNED[:2],
+    "syntactic": [{"name": "recursion guard stays alive while the nested value is visited", "fn": synt.depth_guard_held},
+                  {"name": "input-driven parser recursion has a depth budget", "fn": synt.parser_recursion_bounded}],
+    "trusted_base": [T1, T2, T3, T4, T6, T8, VSTD, KANI,
+                     "covers the functions under contract only: absence of panic/overflow/out-of-bounds is an obligation of every Verus-verified body (arithmetic, indexing, unreachable!, reader preconditions) and of every Kani harness (pointer checks); whole entry points on unbounded input, leaks, the in-place padded DOM parser, allocator behaviour are NOT covered",
+                     "stack boundedness is not expressible as a function contract without a depth parameter in the code: the two syntactic checks stand in and are reported as syntactic"],
+    "level_text": "conjunction of (a) Verus proofs that the validating recogniser, the error constructors (snippet window slicing) and the number parser respect every callee precondition and cannot overflow, index out of bounds or reach unreachable!() for any input, (b) Kani/CBMC memory-safety + totality proofs of the unsafe leaf code over full domains (hex table, UTF-8 writer, \\u handler over 12-byte windows, block loader, page-cross guard, Meta packing, Reader impl, OwnedLazyValue type invariant); unbounded stack use (F1) is a recorded known finding",
+    "level_note": "partial by construction: functions, not entry points; see DESIGN.md §6 C01",
+    "technique": TECH_VK,
+    "explanation": "no-panic / in-bounds obligations of every function under contract; F1 (no depth bound) is a known finding",
+}
+
+PROPS["C13"] = {
+    "level": "proof",
+    "verus": [],
+    "kani": K_OWNED,
+    "trusted_base": [KANI, T4, "FastStr / Bytes drop glue excluded from the harnesses (mem::forget)",
+                     "only the type/representation invariant is under contract; accessor agreement with the DOM, verbatim re-serialization, clone/mutation histories are not"],
+    "level_text": "Kani/CBMC proof of the representation invariant that makes the lazy accessors total: every constructor of OwnedLazyValue from well-formed raw text (new, From<LazyValue>) yields a value whose get_type() is defined and equals the type the text denotes, for every JSON type including true/false/null",
+    "level_note": "type invariant only (the part of C13 a function contract can state); see DESIGN.md for what is not covered",
+    "technique": TECH_K,
+    "explanation": "LazyRaw.raw[0] in {-,0-9,\",[,{}; literals are Parsed",
+}
+
+PROPS["C18"] = {
+    "level": "proof",
+    "verus": [],
+    "kani": K_CACHE,
+    "trusted_base": [KANI, T4, "T7 memory orderings are NOT modelled: the atomic operations are given sequentially consistent nondeterministic contracts (rely/guarantee over-approximation of any number of threads)",
+                     "the decoder (from_slice_unchecked::<String>) is replaced by a nondeterministic Ok/Err model",
+                     "LazyRaw::load (owned half) is not decided: CBMC does not finish on its harness (kept in kani/owned.rs, unregistered)"],
+    "level_text": "Kani/CBMC proof on the real Inner::parse_from / Clone / Drop with each atomic operation replaced by the nondeterministic outcome its specification allows (including spurious weak-CAS failure and a racing publisher): the returned reference is always valid and is the unique published decoding, the loser is released exactly once with its real layout, counts stay balanced",
+    "level_note": "contract-level rely/guarantee argument; no memory model, no real threads",
+    "technique": TECH_K + " with kani::stub models of the atomic operations",
+    "explanation": "publish-once protocol on Inner.unescaped",
+}
+
+PROPS["C03"] = {
+    "level": "proof",
+    "verus": [],
+    "kani": K_META,
+    "trusted_base": [KANI, T4, "DocumentVisitor's arena copy (copy_nonoverlapping into bumpalo), the visitor event order and the public read API walk are NOT under contract",
+                     "string / number values delegate to C09 / C07"],
+    "level_text": "Kani/CBMC complete proofs of the packed node metadata the DOM is built from: kind/index/length round trips and totality of get_type for every packed value; the 29-bit index field is the known finding F5",
+    "level_note": "kernels of the DOM representation only; the tree-equality statement itself is not decided",
+    "technique": TECH_K,
+    "explanation": "Meta::{pack_dom_node,unpack_dom_node,pack_static_str,get_type,unpack_root}",
+}
+
 PROPS["C12"] = {
     "level": "proof",
     "verus": [{"unit": "iterators", "rlimit": 200}],
@@ -198,11 +277,13 @@ PROPS["C09"] = {
 
 PROPS["C10"] = {
     "level": "proof",
-    "verus": [],
-    "kani": K_BITS + K_PXOR,
-    "trusted_base": [T3, KANI, "get_string_bits / skip_container_loop / path walkers not yet under contract"],
-    "level_text": "Kani/CBMC complete proofs of the skipper bit kernels (escaped-bit computation with carry, prefix xor)",
-    "level_note": "kernels only",
+    "verus": [{"unit": "walkers", "rlimit": 200}],
+    "kani": K_BITS + K_PXOR + K_STRBITS,
+    "trusted_base": [T1, T2, T3, T4, T6, T8, VSTD, KANI, PERR,
+                     "skip_container_loop (bracket counting over 64-bit masks) is NOT decided: CBMC does not finish; skip_container, skip_string_unchecked, get_next_token and the unchecked walkers are not under contract",
+                     "decoded()/decodable() of member names are uninterpreted in unit walkers (decoder contracts: C09)"],
+    "level_text": "Verus proof that the checked walkers get_from_object_checked / get_from_array_checked stop exactly at the value of the FIRST member whose decoded name equals the key (resp. the i-th element) and only after a well-formed prefix (object_lookup / array_lookup specs); Kani/CBMC complete proofs of the unchecked skipper's bit kernels (escaped bits with carry, prefix xor, the 64-byte in-string mask with both carries)",
+    "level_note": "agreement of the unchecked variants on well-formed input is argued from the kernels, not proved end to end",
     "technique": TECH_K,
     "explanation": "bit kernels of the unchecked skipper equal their scalar definitions",
 }
